@@ -65,6 +65,9 @@ def builder(seed, chains=3, init=None, multiple=False, jitter=None, kernels="rw"
     if kernels == "rw":
         b.add_kernel(gs.RWKernel(["x"], initial_step_size=0.8))
         b.add_kernel(gs.RWKernel(["y"], initial_step_size=0.8))
+    elif kernels == "nuts":  # default step size: init_state searches a reasonable step size FROM THE MODEL STATE it is handed
+        b.add_kernel(gs.NUTSKernel(["x"]))
+        b.add_kernel(gs.HMCKernel(["y"]))
     else:
         b.add_kernel(KeyLogKernel(["x"]))
         b.add_kernel(KeyLogKernel(["y"]))
@@ -111,6 +114,13 @@ def bounded(tier, seed):
     same0 = all(np.array_equal(ra[k][0], rb[k][0]) for k in ra)
     differ = any(not np.array_equal(ra[k][1], rb[k][1]) for k in ra)
     col.add(None if same0 and differ else {"sig": "native::repro::chain_independence", "what": "chain 0 changed when only the initial values of chains 1 and 2 were changed", "input": {"seed": s}})
+    # 4b. ... in both directions and with kernels whose initial state depends on the model state (NUTS / HMC step-size search): change chain 0 only
+    far0 = {"x": base["x"].at[0].add(40.0), "y": base["y"].at[0].add(-25.0)}
+    _, rc = run(builder(s, init=base, multiple=True, kernels="nuts"))
+    _, rd = run(builder(s, init=far0, multiple=True, kernels="nuts"))
+    same12 = all(np.array_equal(rc[k][1:], rd[k][1:]) for k in rc)
+    col.add(None if same12 else {"sig": "native::repro::chain_independence_kernel_init", "what": "chains 1 and 2 (NUTS / HMC kernels with default step size) changed when only the initial value of chain 0 was changed",
+                                 "input": {"seed": s, "kernels": ["NUTSKernel(['x'])", "HMCKernel(['y'])"]}})
     # 5. first recorded sample = initial value after jitter; replicated and per-chain; repeated build
     jit = {"x": lambda key, v: v + 0.25, "y": lambda key, v: v + jax.random.uniform(key, v.shape)}
     for multiple, init in ((False, None), (True, base)):
@@ -146,7 +156,7 @@ def bounded(tier, seed):
     return {
         "evaluations": col.evals, "distinct_nontrivial": col.evals,
         "rule": ("BOUNDED: real EngineBuilder/Engine, 3 chains, two RW kernels on a Gaussian dict model, schedule INIT/FAST(4)/BURNIN(2)/POST(6, thinning 2): rerun equality, int seed vs "
-                 "PRNGKey, uniqueness of the keys received by every kernel call - transition, start_epoch, end_epoch, tune, end_warmup - (key-logging kernel), chain 0 unchanged when other chains' initial values change, first "
+                 "PRNGKey, uniqueness of the keys received by every kernel call - transition, start_epoch, end_epoch, tune, end_warmup - (key-logging kernel), chain 0 unchanged when other chains' initial values change and chains 1,2 unchanged when chain 0's does (NUTS/HMC with step-size search at initialisation), first "
                  f"recorded sample = initial value + jitter for replicated and per-chain states over two consecutive build() calls. base seed {s}. Determinism of XLA is an assumption."),
         "samples": [{"seed": s, "schedule": SCHED}],
         "exhaustive": False, "violations": col.violations,
